@@ -38,7 +38,11 @@ impl Command for TestCmd {
         self.parent
     }
     fn policy(&self) -> Option<&[u8]> {
-        None
+        // init commands must carry policy bytes for the transaction path
+        match self.parent {
+            Prior::None => Some(b"p"),
+            _ => None,
+        }
     }
     fn bytes(&self) -> &[u8] {
         &self.data
